@@ -150,8 +150,10 @@ def write_evidence(pid: str, mod, tier: str, seed: int, agg: dict, wall: float, 
         "violations": nviol,
         "repo": os.environ.get("VERIF_REPO", "/repo"),
     }
-    os.makedirs(os.path.join(ROOT, "evidence"), exist_ok=True)
-    path = os.path.join(ROOT, "evidence", f"{pid}.json")
+    # evidence/ describes /repo only; runs against scratch copies (seeded breaks) go elsewhere
+    edir = "evidence" if os.path.realpath(os.environ.get("VERIF_REPO", "/repo")) == "/repo" else ".scratch/evidence"
+    os.makedirs(os.path.join(ROOT, edir), exist_ok=True)
+    path = os.path.join(ROOT, edir, f"{pid}.json")
     tmp = path + ".tmp"
     with open(tmp, "w", encoding="utf-8") as f:
         json.dump(ev, f, indent=1, sort_keys=False, default=repr)
